@@ -294,6 +294,52 @@ def run(case, rec):
                 rec.check(vmin - slack <= v <= vmax + slack, "value %r outside the range of the input [%r, %r]" % (v, vmin, vmax))
     rec.count("nodes_inside", nin)
     rec.count("nodes_outside", nout)
+    # nearest-neighbour method: the value of every finite node is the value of the nearest data point - of the nearest BLOCK MEAN
+    # (blocks of the output spacing over the region of the projected data) when antialiasing is on; exact arithmetic, skipped where
+    # the block of a point or the nearest neighbour of a node is not unique (mutation survivor: spacing=shape in the antialias step)
+    if case["method"] == "nearest":
+        P = [(F(float(a)), F(float(b)), F(float(vals[i, j]))) for (i, j), a, b in zip(valid, pe, pn)]
+        red = P
+        if case["anti"]:
+            red = None
+            sp_n, sp_e = kw["spacing"] if req == "spacing" else ((region[3] - region[2]) / (nn - 1), (region[1] - region[0]) / (ne - 1))
+            kes, _ = G.n_intervals(data_region[0], data_region[1], sp_e)
+            kns, _ = G.n_intervals(data_region[2], data_region[3], sp_n)
+            if len(kes) == 1 and len(kns) == 1 and data_region[1] > data_region[0] and data_region[3] > data_region[2]:
+                kb_e, kb_n = list(kes)[0], list(kns)[0]
+                mag = max(abs(v) for v in data_region)
+                guard = (64 * float(np.spacing(mag)), 64 * float(np.spacing(mag)))
+                groups = {}
+                unique = True
+                for a, b, v in P:
+                    adm = G.block_index_exact(float(a), float(b), data_region, kb_e, kb_n, guard)
+                    if len(adm) != 1:
+                        unique = False
+                        break
+                    groups.setdefault(next(iter(adm)), []).append((a, b, v))
+                if unique:
+                    red = [(sum(x[0] for x in g) / len(g), sum(x[1] for x in g) / len(g), sum(x[2] for x in g) / len(g)) for g in groups.values()]
+        if red is None:
+            rec.count("nearest_value_cases_with_ambiguous_blocks", 1)
+        else:
+            vscale = max(abs(vmin), abs(vmax), 1.0)
+            badv = None
+            ncmp = 0
+            for i in range(cn.size):
+                for j in range(ce.size):
+                    v = out[i, j]
+                    if not np.isfinite(v):
+                        continue
+                    q = (F(float(ce[j])), F(float(cn[i])))
+                    ds_ = sorted(((a - q[0]) ** 2 + (b - q[1]) ** 2, val) for a, b, val in red)
+                    if len(ds_) > 1 and ds_[1][0] - ds_[0][0] <= F(1, 10 ** 9) * (ds_[1][0] + F(1, 10 ** 12)):
+                        continue
+                    ncmp += 1
+                    if abs(F(float(v)) - ds_[0][1]) > F(1, 10 ** 9) * F(vscale) and badv is None:
+                        badv = (float(ce[j]), float(cn[i]), float(v), float(ds_[0][1]))
+            rec.count("nearest_values_compared", ncmp)
+            rec.check(badv is None, "nearest method%s: node (%r, %r) holds %r, the nearest %s has %r"
+                      % ((" with antialiasing" if case["anti"] else "",) + (badv[:3] if badv else (0, 0, 0)) + ("block mean" if case["anti"] else "data point", badv[3] if badv else 0)))
     # affine projection, no antialiasing, default grid: projected nodes that carried data keep their values
     if case["proj"] == "affine" and not case["anti"] and req == "default" and out.shape == vals.shape and hole == "none":
         tol = 0.0 if case["method"] in ("nearest",) else 1e-9 * vmax
